@@ -148,7 +148,6 @@ func Verif_C03_S4_RestartLayout() {
 // same blocks, seeds and write offsets after the list is rebuilt from the state file.
 func Verif_C03_S5_RestartRoundTrip() { verifScenarioRestartRoundTrip() }
 
-
 // Verif_C03_S6_StateFileRoundTrip: the state a graceful shutdown leaves behind is read
 // back completely by the next start, also when it is large (thousands of epochs).
 func Verif_C03_S6_StateFileRoundTrip() { verifScenarioStateFileRoundTrip() }
